@@ -45,7 +45,7 @@ def main():
     try:
         demo_dst = os.path.join(wt, "microscpi", "tests", "demo_seed.rs")
         shutil.copy(os.path.join(d, "demo.rs"), demo_dst)
-        rc, out = sh(["cargo", "test", "--offline", "-p", "microscpi", "--test", "demo_seed"], cwd=wt, env=env)
+        rc, out = sh(["cargo", "test", "--workspace", "--offline", "--test", "demo_seed"], cwd=wt, env=env)
         res["demo_passes_unpatched"] = rc == 0
         rc, out = sh(["git", "apply", os.path.abspath(os.path.join(d, "patch.diff"))], cwd=wt)
         res["patch_applies"] = rc == 0
@@ -53,7 +53,7 @@ def main():
             res["apply_output"] = out[-500:]
         rc, out = sh(["cargo", "build", "--workspace", "--offline"], cwd=wt, env=env)
         res["builds_patched"] = rc == 0
-        rc, out = sh(["cargo", "test", "--offline", "-p", "microscpi", "--test", "demo_seed"], cwd=wt, env=env)
+        rc, out = sh(["cargo", "test", "--workspace", "--offline", "--test", "demo_seed"], cwd=wt, env=env)
         res["demo_fails_patched"] = rc != 0
         os.remove(demo_dst)
         rc, out = sh(["cargo", "test", "--workspace", "--no-fail-fast", "--offline"], cwd=wt, env=env)
